@@ -280,6 +280,51 @@ def gen_exhaustive(nb, nd, kinds, depth):
     return out
 
 
+def gen_state_canonical(nb, nd, kinds, depth):
+    """State-canonical reduction of the exhaustive space: for every specification state
+    (creator references, liveness, which handles exist, where they point) reachable within
+    depth-1 legal operations after the creations - one witness history each, the first found
+    breadth-first - every legal operation is appended once.  Every history of `depth` legal
+    operations passes, step by step, only through (state, operation) pairs listed here."""
+    alpha = alphabet(nb, nd, len(kinds), kinds)
+    prefix = ["c" + k for k in kinds]
+
+    def clone(s):
+        c = Sim(nb, nd)
+        c.creator = list(s.creator); c.kind = list(s.kind); c.live = list(s.live)
+        c.ptr = list(s.ptr); c.alive = list(s.alive)
+        return c
+
+    def key(s):
+        return (tuple(s.creator), tuple(s.alive), tuple(s.live),
+                tuple(p if l else None for p, l in zip(s.ptr, s.live)))
+
+    base = Sim(nb, nd)
+    for t in prefix:
+        base.step(t)
+    seen = {key(base)}
+    frontier = [(base, [])]
+    out = []
+    nstates = 1
+    for d in range(depth):
+        nxt = []
+        for sim, acc in frontier:
+            for t in alpha:
+                if not sim.legal(t):
+                    continue
+                out.append(" ".join(prefix + acc + [t]))
+                if d + 1 < depth:
+                    s2 = clone(sim)
+                    s2.step(t)
+                    k = key(s2)
+                    if k not in seen:
+                        seen.add(k)
+                        nxt.append((s2, acc + [t]))
+        nstates += len(nxt)
+        frontier = nxt
+    return out, nstates
+
+
 HAND = [   # the histories the design calls out
     "cB rc:0:0 rd:0 ca:0:0",                       # self-assignment at count 1
     "cB rc:0:0 rd:0 ra:0:0",                       # raw self-assignment at count 1
@@ -353,6 +398,13 @@ def run(ctx):
     exh = []
     for kinds in (["B", "D"], ["D", "D"]):
         exh += gen_exhaustive(XB, XD, kinds, depth)
+    cdepth = ctx.pick(5, 8)
+    ncanon, nstates = 0, 0
+    for kinds in (["B", "D"], ["D", "D"]):
+        ch, ns = gen_state_canonical(XB, XD, kinds, cdepth)
+        exh += ch
+        ncanon += len(ch)
+        nstates += ns
     ndeep = ctx.pick(6000, 60000)
     if True:
         # in addition a seeded sample of the histories with 5 operations after the creations
@@ -433,10 +485,14 @@ def run(ctx):
                               "(the implementation's observations satisfy the property's equations)" % (c, il[:300], ml[:300]))
     ctx.cov["op_histogram_random"] = hist
     ctx.cov["case_mix"] = {"hand+corpus": len(corp), "random_len<=40_3obj_5handles": len(rnd),
-                           "exhaustive_depth": depth, "exhaustive_and_deep_3handles_2obj": len(exh)}
+                           "exhaustive_depth": depth, "state_canonical_depth": cdepth, "state_canonical_histories": ncanon, "exhaustive_and_deep_3handles_2obj": len(exh)}
     ctx.cov["exhaustive_subspace"] = ("all legal histories of %d operations (after creating 2 objects; object kinds B,D and D,D) over 3 handles "
                              "(2 IntrusivePtr<Base>, 1 IntrusivePtr<Derived>): %d histories%s"
-                             % (depth, len(exh) - ndeep, " + %d seeded histories of 5 operations" % ndeep))
+                             % (depth, len(exh) - ndeep - ncanon,
+                                " + state-canonical reduction to depth %d: every legal operation from every one of the %d specification "
+                                "states reachable within %d operations, one witness history each (%d histories; covers every "
+                                "(state, operation) pair that any history of %d operations passes through)"
+                                " + %d seeded histories of 5 operations" % (cdepth, nstates, cdepth - 1, ncanon, cdepth, ndeep)))
     ctx.cov["mismatches"] = nmis
     ctx.rule = ("histories of create / default, copy, move, converting, raw constructor / destructor / copy, move, raw assignment "
                 "(self-assignment and null included) / explicit refInc, refDec over 3 objects x 5 handles (random, length <= 40, 4% calls "
